@@ -2509,7 +2509,15 @@ impl<'a> Socket<'a> {
                     .inner_mut()
                     .on_loss(cx.now(), in_flight);
 
-                self.pending_fast_retransmit = true;
+                if self.tx_buffer.is_empty() || self.remote_win_len == 0 {
+                    // There is no data segment that can be retransmitted right now (only
+                    // a SYN or FIN is outstanding, or the remote window is closed):
+                    // rewind as after a retransmission timeout instead, so that the
+                    // outstanding sequence space is not left without a timer.
+                    self.remote_last_seq = self.local_seq_no;
+                } else {
+                    self.pending_fast_retransmit = true;
+                }
             }
 
             // Clear the `should_retransmit` state. If we can't retransmit right
